@@ -4,7 +4,7 @@
      fault  W k ; op;...  [; ? S ...]  -> <disk> # mem_covers stores(mem) stores(reinit) ops_ok
      counts W ; op;...                 -> n1 n2 ...
      eval   W ; <disk>                 -> consistent ready covers windows_ok
-   ops:  S num id parent keys | R | P e | L h | N | G | U      (numbers in hex, keys k1_k2 or -)
+   ops:  S num id parent keys | R | P keep_hist e | L h | N | G | U      (numbers in hex, keys k1_k2 or -)
    disk: h=..|st=..|l1=..|snap=..|win=..|F=f0/f1/.../f7  (see show_disk) *)
 
 let hx = hex_of_n
@@ -87,7 +87,7 @@ let parse_disk (s : string) : disk =
 let parse_op (s : string) : op = match words s with
   | ["S"; a; b; c; ks] -> Store { b_num = nh a; b_id = nh b; b_parent = nh c; b_bloom = parse_keys ks }
   | ["R"] -> Revert
-  | ["P"; e] -> Prune (nh e)
+  | ["P"; kh; e] -> Prune (kh = "1", nh e)
   | ["L"; h] -> SetL1 (nh h)
   | ["N"] -> Snapshot
   | ["G"] -> Restart true
